@@ -368,9 +368,14 @@ void sim_skip(const char *why)
     SIM_COV_DUMP();
     _exit(3);
 }
+static void arm_watchdog(int seconds);
 void sim_step(void)
 {
     R.steps++;
+    /* the CPU watchdog measures processor time spent *without* a simulated call: a loop that keeps calling the environment is
+       the step budget's business (LIVELOCK), and a legitimately long operation (a 255-deep include chain re-read through
+       %preproc makes a few million calls) must not trip a limit meant for loops that call nothing */
+    if ((R.steps & 8191) == 0 && R.in_run) arm_watchdog(20);
     if (++R.op_steps > R.step_budget && R.in_run) sim_fail("LIVELOCK", "more than %llu simulated calls in one operation", (unsigned long long)R.step_budget);
 }
 
